@@ -61,10 +61,11 @@ func localNamesOf(fn *ssa.Function) []localName {
 type nameTable struct {
 	Locals map[string][]localName `json:"locals"`
 	Params map[string][]string    `json:"params"` // parameter names in order, receiver first
+	Loops  map[string][]string    `json:"loops"`  // loop signatures in source order (loopsigs.go), functions with >= 2 loops
 }
 
 func cmdNames(w *World) int {
-	table := nameTable{Locals: map[string][]localName{}, Params: map[string][]string{}}
+	table := nameTable{Locals: map[string][]localName{}, Params: map[string][]string{}, Loops: map[string][]string{}}
 	for name, fn := range w.Funcs {
 		if len(fn.Blocks) == 0 {
 			continue
@@ -79,6 +80,9 @@ func cmdNames(w *World) int {
 		if len(ps) > 0 {
 			table.Params[name] = ps
 		}
+		if sg := loopSigsOf(fn); len(sg) >= 2 {
+			table.Loops[name] = sg
+		}
 	}
 	b, _ := json.Marshal(table)
 	path := filepath.Join(verifDir, "spec", "localnames.json")
@@ -90,6 +94,7 @@ func cmdNames(w *World) int {
 
 var refLocalNames map[string][]localName
 var refParamNames map[string][]string
+var refLoopSigs map[string][]string
 var refLocalNamesLoaded bool
 
 // contractParamNames: the names the contracts use for the parameters of fn (receiver first): those
@@ -134,7 +139,7 @@ func loadRefLocalNames() {
 	}
 	var t nameTable
 	if json.Unmarshal(b, &t) == nil {
-		refLocalNames, refParamNames = t.Locals, t.Params
+		refLocalNames, refParamNames, refLoopSigs = t.Locals, t.Params, t.Loops
 	}
 }
 
